@@ -666,10 +666,279 @@ fn run_sk(body: &str) -> String {
     out.join(" | ")
 }
 
+// ---------------------------------------------------------------------------------------------------
+// the tangle complex: TngComplex<i64> driven through its public API (model Model/TngComplex.v)
+// ---------------------------------------------------------------------------------------------------
+//   tc|tm <op> // <op> // ...  a script over two registers cur / other (Option<TngComplex<i64>>, initially None); tm = malformed
+//     I h t i0 j0 bp     cur = TngComplex::init(&h, &t, (i0, j0), bp)   (bp = `-` | edge)       -> I=<cpx>
+//     X T a b c d        cur.append(&Crossing T[a,b,c,d])  (T in X M V H)                        -> x=<cpx>
+//     SW                 swap(cur, other)                                                         -> sw=<cpx|->
+//     CO                 cur.connect(other.take())                                                -> co=<cpx>
+//     DL b               deloop the first loop: the least key (sorted as strings) whose tangle has a circle c with
+//                        (b = 1 || !contains_base_pt(c)), r = find_comp of that predicate      -> dl=<key>,<r> upd=<keys> <cpx> | dl=-
+//     DLA b              DL b until there is none                                                 -> dla=<key>,<r>;.. <cpx>
+//     DX key r           cur.deloop(key, r)                                                       -> dl=.. as DL
+//     EL n               eliminate the (n mod #)-th edge with is_invertible(), edges sorted by (key, key) -> el=<k>><l> <cpx> | el=-
+//     ELA s              EL (s + step) until there is none                                        -> ela=<k>><l>;.. <cpx>
+//     EX k l             cur.eliminate(k, l)                                                      -> el=.. as EL
+//     RV key             cur.remove_vertex(key)                                                   -> rv=<cpx>
+//     SH i j             cur.set_deg_shift((i, j))                                                -> sh=<cpx>
+//     EV                 edge(k, l).eval(h, t) of every edge                                      -> ev=<k>><l>=<r|P>;..
+//     RAW                cur.convert_edges(|e| e).into_raw_complex(): d of every generator         -> raw=<i>:<key>-><key>=<r>,..;.. | raw=P
+//   key = <state bits 0/1>/<label X/I> ; cpx = `dim= sh= bp= nv= cd=<is_completely_delooped> val=<validate() returns> dd=<d d = 0, computed> rk=<rank(i) over h_range>
+//         :: <key>:[tangle raw] in=<keys> out=<key>><lc> ~ <key>><lc> ; ...` with vertices, in-edges, out-edges sorted by key string
+use yui_kh::kh::internal::v2::tng_complex::{TngComplex, TngKey};
+use yui_kh::kh::{KhAlgGen, KhLabel, KhGen};
+use yui_link::State;
+use yui_homology::{ChainComplexTrait, GridTrait};
+use yui::lc::Lc;
+
+type TC = TngComplex<i64>;
+
+fn key_str(k: &TngKey) -> String {
+    let s: String = k.state.iter().map(|b| if b.is_zero() { '0' } else { '1' }).collect();
+    let l: String = k.label.iter().map(|x| if x.is_X() { 'X' } else { 'I' }).collect();
+    format!("{}/{}", s, l)
+}
+
+fn parse_key(s: &str) -> Option<Option<TngKey>> {
+    let (a, b) = s.split_once('/')?;
+    if !a.chars().all(|c| c == '0' || c == '1') || !b.chars().all(|c| c == 'X' || c == 'I') { return None; }
+    Some(guarded(|| {
+        let mut state = State::empty();
+        for c in a.chars() { if c == '1' { state.push_1() } else { state.push_0() } }
+        let mut label = KhLabel::empty();
+        for c in b.chars() { label.push(if c == 'X' { KhAlgGen::X } else { KhAlgGen::I }) }
+        TngKey { state, label }
+    }))
+}
+
+fn sorted_keys(c: &TC) -> Vec<TngKey> {
+    let mut keys: Vec<TngKey> = c.keys().cloned().collect();
+    keys.sort_by_key(key_str);
+    keys
+}
+
+fn tc_str(c: &TC) -> String {
+    let keys = sorted_keys(c);
+    let (i0, j0) = c.deg_shift();
+    let ranks: Vec<String> = c.h_range().map(|i| c.rank(i).to_string()).collect();
+    let val = guarded(|| c.validate()).is_some();
+    let verts: Vec<String> = keys.iter().map(|k| {
+        let v = c.vertex(k);
+        let mut ins: Vec<String> = v.in_edges().map(key_str).collect();
+        ins.sort();
+        let mut outs: Vec<(String, String)> = v.out_edges().map(|l| (key_str(l), lc_str(c.edge(k, l)))).collect();
+        outs.sort();
+        let outs: Vec<String> = outs.iter().map(|(l, f)| format!("{}>{}", l, f)).collect();
+        format!("{}:[{}] in={} out={}", key_str(k), tng_raw(v.tng()), ins.join(","), outs.join(" ~ "))
+    }).collect();
+    let dd = if !c.is_completely_delooped() { "-" } else { match guarded(|| dd_zero(c)) { Some(true) => "1", Some(false) => "0", None => "P" } };
+    format!("dim={} sh={},{} bp={} nv={} cd={} val={} dd={} rk={} :: {}", c.dim(), i0, j0,
+        c.base_pt().map(|e| e.to_string()).unwrap_or("-".into()), c.nverts(), b01(c.is_completely_delooped()), b01(val), dd,
+        ranks.join(","), verts.join(" ; "))
+}
+
+/// d d = 0 computed from the public API: for all x, y the sum over m of (edge(m, y) * edge(x, m)).part_eval(h, t) is zero.
+/// Only meaningful (and only printed) for completely delooped complexes: LcCob is not a normal form of the morphisms
+/// modulo the local relations (neck cutting on open components is never applied), the sums cancel syntactically only
+/// when every cobordism is closed.
+fn dd_zero(c: &TC) -> bool {
+    let (h, t) = c.ht().clone();
+    let mut ok = true;
+    for x in c.keys() {
+        let mut sums: Vec<(TngKey, LcC)> = vec![];
+        for m in c.keys_out_from(x) {
+            let f = c.edge(x, m);
+            for y in c.keys_out_from(m) {
+                let g = c.edge(m, y);
+                let p = (g * f).part_eval(&h, &t);
+                match sums.iter_mut().find(|(k, _)| k == y) {
+                    Some((_, s)) => { *s += &p; }
+                    None => sums.push((*y, p)),
+                }
+            }
+        }
+        if sums.iter().any(|(_, s)| !s.is_zero()) { ok = false; }
+    }
+    ok
+}
+
+fn choose_loop(c: &TC, allow_based: bool) -> Option<(TngKey, usize)> {
+    for k in sorted_keys(c) {
+        if let Some(r) = c.vertex(&k).tng().find_comp(|m| m.is_circle() && (allow_based || !c.contains_base_pt(m))) {
+            return Some((k, r));
+        }
+    }
+    None
+}
+
+fn inv_edges(c: &TC) -> Vec<(TngKey, TngKey)> {
+    let mut v: Vec<(String, String, TngKey, TngKey)> = vec![];
+    for k in sorted_keys(c) {
+        for l in c.keys_out_from(&k) {
+            if c.edge(&k, l).is_invertible() { v.push((key_str(&k), key_str(l), k, *l)); }
+        }
+    }
+    v.sort_by(|a, b| (&a.0, &a.1).cmp(&(&b.0, &b.1)));
+    v.into_iter().map(|(_, _, k, l)| (k, l)).collect()
+}
+
+fn raw_str(c: &TC) -> Option<String> {
+    guarded(|| {
+        let copy = c.convert_edges(|e| e);
+        let range = copy.h_range();
+        let raw = copy.into_raw_complex();
+        let mut parts: Vec<String> = vec![];
+        for i in range {
+            let mut gens: Vec<KhGen> = raw.get(i).raw_gens().iter().cloned().collect();
+            gens.sort_by_key(|x| key_str(&TngKey::from(x)));
+            for x in gens {
+                let dx = raw.d(i, &Lc::from(x));
+                let mut ts: Vec<String> = dx.iter().map(|(y, r)| format!("{}={}", key_str(&TngKey::from(y)), r)).collect();
+                ts.sort();
+                parts.push(format!("{}:{}->{}", i, key_str(&TngKey::from(&x)), ts.join(",")));
+            }
+        }
+        parts.join(";")
+    })
+}
+
+fn run_tc(body: &str) -> String {
+    let mut cur: Option<TC> = None;
+    let mut other: Option<TC> = None;
+    let mut out: Vec<String> = vec![];
+    macro_rules! stop { () => {{ out.push("P".into()); return out.join(" | "); }} }
+    macro_rules! bad { () => {{ out.push("BAD-OP".into()); return out.join(" | "); }} }
+    for op in body.split("//") {
+        let op = op.trim();
+        if op.is_empty() { continue; }
+        let (name, rest) = op.split_once(' ').unwrap_or((op, ""));
+        let w: Vec<&str> = rest.split_whitespace().collect();
+        if name == "I" {
+            if w.len() != 5 { bad!() }
+            let Some(p) = w[..4].iter().map(|x| x.parse::<i64>().ok()).collect::<Option<Vec<i64>>>() else { bad!() };
+            let bp = if w[4] == "-" { None } else { match w[4].parse::<usize>() { Ok(e) => Some(e), Err(_) => bad!() } };
+            let c = TC::init(&p[0], &p[1], (p[2] as isize, p[3] as isize), bp);
+            out.push(format!("I={}", tc_str(&c)));
+            cur = Some(c);
+            continue;
+        }
+        if name == "SW" {
+            std::mem::swap(&mut cur, &mut other);
+            out.push(format!("sw={}", cur.as_ref().map(tc_str).unwrap_or("-".into())));
+            continue;
+        }
+        if name == "CO" {
+            let (Some(c), Some(o)) = (cur.as_mut(), other.take()) else { bad!() };
+            if guarded(|| c.connect(o)).is_none() { stop!() }
+            out.push(format!("co={}", tc_str(c)));
+            continue;
+        }
+        let Some(c) = cur.as_mut() else { bad!() };
+        match name {
+            "X" => {
+                let Some(x) = parse_crossing(&w) else { bad!() };
+                if guarded(|| c.append(&x)).is_none() { stop!() }
+                out.push(format!("x={}", tc_str(c)));
+            }
+            "DL" | "DX" => {
+                let choice = if name == "DL" {
+                    match guarded(|| choose_loop(c, rest.trim() == "1")) { Some(ch) => ch, None => stop!() }
+                } else {
+                    if w.len() != 2 { bad!() }
+                    let Some(k) = parse_key(w[0]) else { bad!() };
+                    let Some(k) = k else { stop!() };
+                    let Some(r) = w[1].parse::<usize>().ok() else { bad!() };
+                    Some((k, r))
+                };
+                match choice {
+                    None => out.push("dl=-".into()),
+                    Some((k, r)) => {
+                        let Some(u) = guarded(|| c.deloop(&k, r)) else { stop!() };
+                        out.push(format!("dl={},{} upd={} {}", key_str(&k), r, u.iter().map(key_str).collect::<Vec<_>>().join(","), tc_str(c)));
+                    }
+                }
+            }
+            "DLA" => {
+                let b = rest.trim() == "1";
+                let mut steps = vec![];
+                for _ in 0..500 {
+                    let Some(ch) = guarded(|| choose_loop(c, b)) else { stop!() };
+                    let Some((k, r)) = ch else { break };
+                    if guarded(|| c.deloop(&k, r)).is_none() { out.push(format!("dla={}", steps.join(";"))); stop!() }
+                    steps.push(format!("{},{}", key_str(&k), r));
+                }
+                out.push(format!("dla={} {}", steps.join(";"), tc_str(c)));
+            }
+            "EL" | "EX" => {
+                let choice = if name == "EL" {
+                    let Some(n) = rest.trim().parse::<usize>().ok() else { bad!() };
+                    let Some(es) = guarded(|| inv_edges(c)) else { stop!() };
+                    if es.is_empty() { None } else { Some(es[n % es.len()]) }
+                } else {
+                    if w.len() != 2 { bad!() }
+                    let (Some(k), Some(l)) = (parse_key(w[0]), parse_key(w[1])) else { bad!() };
+                    let (Some(k), Some(l)) = (k, l) else { stop!() };
+                    Some((k, l))
+                };
+                match choice {
+                    None => out.push("el=-".into()),
+                    Some((k, l)) => {
+                        if guarded(|| c.eliminate(&k, &l)).is_none() { stop!() }
+                        out.push(format!("el={}>{} {}", key_str(&k), key_str(&l), tc_str(c)));
+                    }
+                }
+            }
+            "ELA" => {
+                let Some(s) = rest.trim().parse::<usize>().ok() else { bad!() };
+                let mut steps = vec![];
+                for i in 0..500 {
+                    let Some(es) = guarded(|| inv_edges(c)) else { stop!() };
+                    if es.is_empty() { break; }
+                    let (k, l) = es[(s + i) % es.len()];
+                    if guarded(|| c.eliminate(&k, &l)).is_none() { out.push(format!("ela={}", steps.join(";"))); stop!() }
+                    steps.push(format!("{}>{}", key_str(&k), key_str(&l)));
+                }
+                out.push(format!("ela={} {}", steps.join(";"), tc_str(c)));
+            }
+            "RV" => {
+                if w.len() != 1 { bad!() }
+                let Some(k) = parse_key(w[0]) else { bad!() };
+                let Some(k) = k else { stop!() };
+                if guarded(|| { c.remove_vertex(&k); }).is_none() { stop!() }
+                out.push(format!("rv={}", tc_str(c)));
+            }
+            "SH" => {
+                let Some(p) = w.iter().map(|x| x.parse::<isize>().ok()).collect::<Option<Vec<isize>>>() else { bad!() };
+                if p.len() != 2 { bad!() }
+                c.set_deg_shift((p[0], p[1]));
+                out.push(format!("sh={}", tc_str(c)));
+            }
+            "EV" => {
+                let (h, t) = c.ht().clone();
+                let mut parts = vec![];
+                for k in sorted_keys(c) {
+                    let mut ls: Vec<TngKey> = c.keys_out_from(&k).cloned().collect();
+                    ls.sort_by_key(key_str);
+                    for l in ls {
+                        let r = guarded(|| c.edge(&k, &l).eval(&h, &t));
+                        parts.push(format!("{}>{}={}", key_str(&k), key_str(&l), opt(r)));
+                    }
+                }
+                out.push(format!("ev={}", parts.join(";")));
+            }
+            "RAW" => out.push(format!("raw={}", raw_str(c).unwrap_or("P".into()))),
+            _ => bad!(),
+        }
+    }
+    out.join(" | ")
+}
+
 fn run_case(line: &str) -> String {
     let line = line.trim();
     let (kind, body) = line.split_once(' ').unwrap_or((line, ""));
-    let r = guarded(|| match kind { "pc" => run_pc(body), "cb" => run_cb(body), "cx" => run_cx(body), "sk" => run_sk(body), _ => run_script(body) });
+    let r = guarded(|| match kind { "pc" => run_pc(body), "cb" => run_cb(body), "cx" => run_cx(body), "sk" => run_sk(body), "tc" | "tm" => run_tc(body), _ => run_script(body) });
     r.unwrap_or("P-CASE".into())
 }
 
@@ -1191,6 +1460,126 @@ fn gen_sk_lc(r: &mut Rng) -> String {
     format!("sk {}", ops.join(" // "))
 }
 
+// ---------------------------------------------------------------------------------------------------
+// generators for the tangle complex (never call the implementation)
+// ---------------------------------------------------------------------------------------------------
+fn tc_ht(r: &mut Rng) -> (i64, i64) {
+    match r.below(4) { 0 | 1 => (0, 0), 2 => (r.range(-2, 3), 0), _ => small_ht(r) }
+}
+
+fn tc_x(r: &mut Rng, e: &[usize; 4]) -> String {
+    let t = match r.below(16) { 0 => 'V', 1 => 'H', k if k % 2 == 0 => 'X', _ => 'M' };
+    format!("X {} {} {} {} {}", t, e[0], e[1], e[2], e[3])
+}
+
+fn tc_small_pd(r: &mut Rng, maxc: usize) -> PD {
+    let maxc = maxc.max(4);
+    for _ in 0..50 {
+        let pd = random_pd(r, maxc);
+        if pd.len() <= maxc { return pd; }
+    }
+    table_knots()[0].1.clone()
+}
+
+/// the builder's pattern: after every crossing deloop / eliminate (all, some, or nothing), everything at the end
+fn gen_tc(r: &mut Rng, maxc: usize) -> String {
+    let mut pd = tc_small_pd(r, maxc);
+    if r.bool() { shuffle(&mut pd, r); }
+    if r.chance(1, 6) { let k = 1 + r.below(pd.len() as u64) as usize; pd.truncate(k); }       // an open tangle
+    let (h, t) = tc_ht(r);
+    let bp = if r.chance(1, 3) { let x = r.pick(&pd); r.pick(&x[..]).to_string() } else { "-".into() };
+    let mut ops = vec![format!("I {} {} {} {} {}", h, t, r.range(-2, 2), r.range(-3, 3), bp)];
+    let style = r.below(4);         // 0: greedy (deloop all, eliminate all), 1: single steps, 2: lazy (nothing until the end), 3: mixed
+    let lazy_ok = pd.len() <= 4;
+    for e in pd.iter() {
+        ops.push(tc_x(r, e));
+        let s = if style == 3 { r.below(3) } else { style };
+        match s {
+            0 => { ops.push("DLA 0".into()); ops.push(format!("ELA {}", r.below(5))); }
+            1 => {
+                for _ in 0..r.below(3) { ops.push("DL 0".into()); }
+                for _ in 0..r.below(3) { ops.push(format!("EL {}", r.below(7))); }
+                if !lazy_ok || r.chance(1, 3) { ops.push("DLA 0".into()); ops.push(format!("ELA {}", r.below(5))); }
+            }
+            _ => { if !lazy_ok { ops.push("DLA 0".into()); ops.push(format!("ELA {}", r.below(5))); } }
+        }
+    }
+    ops.push("DLA 0".into());
+    ops.push(format!("ELA {}", r.below(5)));
+    if r.chance(1, 5) { ops.push("EV".into()); }
+    ops.push("DLA 1".into());
+    ops.push(format!("ELA {}", r.below(5)));
+    ops.push("EV".into());
+    ops.push("RAW".into());
+    format!("tc {}", ops.join(" // "))
+}
+
+/// two complexes built separately (partly simplified) and connected
+fn gen_tc_co(r: &mut Rng, maxc: usize) -> String {
+    let mut pd = tc_small_pd(r, maxc.min(4));
+    shuffle(&mut pd, r);
+    let k = r.below(pd.len() as u64 + 1) as usize;
+    let (h, t) = tc_ht(r);
+    let bp = if r.chance(1, 3) { let x = r.pick(&pd); Some(*r.pick(&x[..])) } else { None };
+    let bps = |b: Option<usize>| b.map(|e| e.to_string()).unwrap_or("-".into());
+    let (b1, b2) = match r.below(4) { 0 => (bp, bp), 1 => (bp, None), 2 => (None, bp), _ => (bp, if r.chance(1, 8) { Some(999) } else { None }) };
+    let mut ops = vec![format!("I {} {} {} {} {}", h, t, r.range(-1, 1), r.range(-1, 1), bps(b1))];
+    for e in pd[..k].iter() { ops.push(tc_x(r, e)); if r.chance(1, 3) { ops.push("DLA 0".into()); ops.push("ELA 0".into()); } }
+    ops.push("SW".into());
+    let h2 = if r.chance(1, 12) { h + 1 } else { h };
+    ops.push(format!("I {} {} {} {} {}", h2, t, r.range(-1, 1), r.range(-1, 1), bps(b2)));
+    for e in pd[k..].iter() { ops.push(tc_x(r, e)); if r.chance(1, 3) { ops.push("DLA 0".into()); ops.push("ELA 0".into()); } }
+    if r.bool() { ops.push("SW".into()); }
+    ops.push("CO".into());
+    ops.push("DLA 0".into());
+    ops.push(format!("ELA {}", r.below(3)));
+    ops.push("DLA 1".into());
+    ops.push(format!("ELA {}", r.below(3)));
+    ops.push("EV".into());
+    ops.push("RAW".into());
+    format!("tc {}", ops.join(" // "))
+}
+
+/// malformed: explicit keys that are missing / not loops / not invertible, removed vertices, repeated or degenerate crossings
+fn gen_tc_mf(r: &mut Rng) -> String {
+    let mut pd = tc_small_pd(r, 4);
+    shuffle(&mut pd, r);
+    pd.truncate(3);
+    let (h, t) = tc_ht(r);
+    let mut ops = vec![format!("I {} {} 0 0 -", h, t)];
+    let n = pd.len();
+    let rand_key = |r: &mut Rng, n: usize| {
+        let s: String = (0..n).map(|_| if r.bool() { '1' } else { '0' }).collect();
+        let l: String = (0..r.below(3)).map(|_| if r.bool() { 'X' } else { 'I' }).collect();
+        format!("{}/{}", s, l)
+    };
+    for (i, e) in pd.iter().enumerate() {
+        ops.push(tc_x(r, e));
+        if r.chance(1, 10) { ops.push(tc_x(r, e)); }
+        if r.chance(1, 10) { let a = r.below(4); ops.push(format!("X X {} {} {} {}", a, a, r.below(4), r.below(4))); }
+        match r.below(8) {
+            0 => ops.push(format!("DX {} {}", rand_key(r, i + 1), r.below(3))),
+            1 => ops.push(format!("EX {} {}", rand_key(r, i + 1), rand_key(r, i + 1))),
+            2 => ops.push(format!("RV {}", rand_key(r, i + 1))),
+            3 => ops.push("DL 0".into()),
+            4 => ops.push(format!("SH {} {}", r.range(-2, 2), r.range(-2, 2))),
+            _ => {}
+        }
+    }
+    ops.push("DLA 0".into());
+    for _ in 0..3 {
+        match r.below(4) {
+            0 => ops.push(format!("EX {} {}", rand_key(r, n), rand_key(r, n))),
+            1 => ops.push(format!("RV {}", rand_key(r, n))),
+            2 => ops.push(format!("DX {} 0", rand_key(r, n))),
+            _ => ops.push(format!("EL {}", r.below(5))),
+        }
+    }
+    ops.push("EV".into());
+    ops.push("RAW".into());
+    format!("tm {}", ops.join(" // "))
+}
+
 fn fixed_cases() -> Vec<String> {
     let mut v: Vec<String> = vec![
         // the unit tests of tng.rs / path.rs
@@ -1285,6 +1674,7 @@ fn main() {
             let mut r = Rng::new(seed);
             for c in fixed_cases() { let res = run_case(&c); o.case(&c, &res); }
             let (n, maxc) = if thorough { (80000, 14) } else { (8000, 9) };
+            let tcmax = if thorough { 6 } else { 5 };
             for i in 0..n {
                 let c = match i % 12 {
                     8 => match (i / 12) % 4 { 0 | 1 => gen_sk_n(&mut r), 2 => gen_sk_k(&mut r, maxc.min(6)), _ => gen_sk_lc(&mut r) },
@@ -1296,6 +1686,7 @@ fn main() {
                     3 => gen_cn(&mut r, maxc),
                     4 | 5 => gen_wf(&mut r),
                     6 | 7 => gen_mf(&mut r),
+                    9 if (i / 12) % 2 == 1 => match (i / 24) % 8 { 0..=4 => gen_tc(&mut r, tcmax), 5 | 6 => gen_tc_co(&mut r, tcmax), _ => gen_tc_mf(&mut r) },
                     _ => gen_pc(&mut r),
                 };
                 let res = run_case(&c);
